@@ -211,11 +211,23 @@ func (db *RockDB) HMset(ts int64, key []byte, args ...common.KVRecord) error {
 	var num int64
 	var value []byte
 	tsBuf := PutInt64(ts)
+	var lastPos map[string]int
+	if len(args) > 1 {
+		lastPos = make(map[string]int, len(args))
+		for i := 0; i < len(args); i++ {
+			lastPos[string(args[i].Key)] = i
+		}
+	}
 	for i := 0; i < len(args); i++ {
 		if err = checkCollKFSize(verKey, args[i].Key); err != nil {
 			return err
 		} else if err = checkValueSize(args[i].Value); err != nil {
 			return err
+		}
+		if lastPos != nil && lastPos[string(args[i].Key)] != i {
+			// a field repeated in one call is written (and counted) once, with its last value,
+			// the existence check below only sees committed data
+			continue
 		}
 		ek := hEncodeHashKey(table, verKey, args[i].Key)
 
